@@ -994,7 +994,7 @@ pub fn oracle(b0: &Built, b1: &Built, w0: &Walk, w1: &Walk, inp: &OracleIn) -> B
             return "";
         }
         let abs = w1.lookup_absolute(p1);
-        if !abs.is_empty() && x.iter().all(|d| abs.contains(d)) && abs.iter().all(|d| x.contains(d)) { "~rel" } else { "" }
+        if !abs.is_empty() && x.iter().all(|d| abs.contains(d)) { "~rel" } else { "" }
     };
     let mut object_lost: Vec<String> = Vec::new();
     let all_printed: HashSet<&str> =
@@ -1063,6 +1063,9 @@ pub fn oracle(b0: &Built, b1: &Built, w0: &Walk, w1: &Walk, inp: &OracleIn) -> B
                 // a qualified path whose first component is (also) looked up to a generated declaration
                 let gen_first = if f0 != f1 && f1.iter().any(|d| site_of(*d) == '#') { "#" } else { "" };
                 match (r0, r1) {
+                    (Res::Decls(x), Res::Decls(y)) if secondary && x != y => {
+                        object_lost.push(format!("member-object-lost:{}:{} | the object of member '{}' ({}) resolves elsewhere", t, letters(x), shown, show_sites(y)));
+                    }
                     (Res::Decls(x), Res::Decls(y)) => {
                         if x != y {
                             fails.insert(format!(
@@ -1196,6 +1199,21 @@ pub fn oracle(b0: &Built, b1: &Built, w0: &Walk, w1: &Walk, inp: &OracleIn) -> B
 
 // ------------------------------------------------------------------------------------------ one case
 
+thread_local! {
+    static KNOWN_TO_RSSL: std::cell::RefCell<HashMap<String, bool>> = std::cell::RefCell::new(HashMap::new());
+}
+
+/// does RSSL itself give `::name` a meaning (built-in type or intrinsic value) when the program declares nothing of that name?
+fn rssl_knows(name: &str) -> bool {
+    if let Some(v) = KNOWN_TO_RSSL.with(|m| m.borrow().get(name).copied()) {
+        return v;
+    }
+    let probe = |body: &str| -> bool { matches!(guard(|| front_end_src(&format!("int zqprobe() {{ {}; return 0; }}\n", body))), Ok(Ok(_))) };
+    let v = probe(&format!("sizeof(::{})", name)) || probe(&format!("(::{})0", name)) || probe(&format!("::{} zqv", name));
+    KNOWN_TO_RSSL.with(|m| m.borrow_mut().insert(name.to_string(), v));
+    v
+}
+
 pub struct RCtx<'a> {
     pub real: &'a [Vec<String>; 2],
     pub spec: &'a [HashSet<String>; 2],
@@ -1245,6 +1263,52 @@ pub fn run_case(target: &str, prog: &str, cx: &mut RCtx, out: &mut Out) {
                     cx.hist.add("skip:homonyms in one source scope");
                     out.case(&req, "homonyms", "SKIP:two entities of one source scope share an identifier");
                     return;
+                }
+            }
+        }
+    }
+    // a struct / enum named like a built-in type and then referred to by name: RSSL itself resolves `::Texture3D` to the
+    // built-in, so the program does not mean what its skeleton means
+    {
+        fn refs(ss: &[Stmt], out: &mut Vec<Key>) {
+            for s in ss {
+                match s {
+                    Stmt::Use(r) => {
+                        if let Some(k) = parse_ref(r) {
+                            out.push(k);
+                        }
+                    }
+                    Stmt::Block(b) => refs(b, out),
+                    _ => {}
+                }
+            }
+        }
+        fn collect(items: &[RItem], out: &mut Vec<Key>) {
+            for it in items {
+                match it {
+                    RItem::Ns(_, inner) => collect(inner, out),
+                    RItem::Fn(_, _, _, b) | RItem::Ef(_, _, _, b) => refs(b, out),
+                    RItem::Rs(_, o, _) => {
+                        if let Some(e) = parse_opts(o).and_then(|o| o.elem) {
+                            out.push(('S', e, 0));
+                        }
+                    }
+                    _ => {}
+                }
+            }
+        }
+        let mut used = Vec::new();
+        collect(&items, &mut used);
+        let lists = Lists { spec: &cx.spec[ti], real: &cx.real[ti] };
+        let hl = Lists { spec: &cx.spec[0], real: &cx.real[0] };
+        for k in used {
+            if k.0 == 'S' || k.0 == 'E' {
+                if let Some(e) = table.get((k.0, k.1, 0)) {
+                    if (lists.builtin(&e.name) || hl.builtin(&e.name)) && rssl_knows(&e.name) {
+                        cx.hist.add("skip:referenced type named like a built-in");
+                        out.case(&req, "builtin-type-name", "SKIP:a struct / enum named like a built-in is referred to by name");
+                        return;
+                    }
                 }
             }
         }
